@@ -277,6 +277,11 @@ def replace_exact(text, old, new, count=1, what=''):
     return re.sub(pat, lambda m: new, text)
 
 
+def count_exact(text, old):
+    pat = r'\s*'.join(re.escape(t) for _, _, t in tokens(old))
+    return len(re.findall(pat, text))
+
+
 def insert_after(text, anchor, ins, what=''):
     pat = r'\s*'.join(re.escape(t) for _, _, t in tokens(anchor))
     ms = list(re.finditer(pat, text))
